@@ -49,6 +49,15 @@ def denote_many(files, limit=128):
     return batch(reqs)
 
 
+def cards_many(files, limit=128):
+    """raw cards per block as MCNP's rules split them: words (blank/= separated), $ comments, comment cards"""
+    reqs = []
+    for f in files:
+        lines = f.split("\n") if isinstance(f, str) else list(f)
+        reqs.append({"limit": limit, "lines": lines, "op": "cards"})
+    return batch(reqs)
+
+
 def denote(text, limit=128):
     return denote_many([text], limit)[0]
 
